@@ -62,6 +62,84 @@ def assembly_groups(rng, n_cases):
 def run(tier, seed, build):
     rng = random.Random(seed + 11)
     extra, _ = assembly_groups(rng, 2 if tier == "quick" else 20)
+    extra += bay_groups(rng, 2 if tier == "quick" else 12)
     return panelmat.run_prop("C11", ["uvw", "strain", "stress"], tier, seed, build,
                              what="the Ritz series / Donnell kinematics the specification evaluates",
                              extra_observed=extra)
+
+
+ANGLES = {0.0: [0, 1], 90.0: [1, 0], 45.0: [1, 1], -45.0: [-1, 1]}
+
+
+def pd_from_panel(p, model=None):
+    """panel description (exact rationals) of a real Panel object whose inputs are exactly representable"""
+    ex = lambda x: exact(0.0 if x is None else x)
+    inv = {v: k for k, v in panelmat.MODELS.items()}
+    mo = model or inv[p.model]
+    plyts = p.plyts if p.plyts else [p.plyt] * len(p.stack)
+    props = p.laminaprops if p.laminaprops else [p.laminaprop] * len(p.stack)
+    fl = [[[ex(getattr(p, "%s%s%s" % (d, nm, ax))) for nm in ("1t", "1r", "2t", "2r")] for ax in ("x", "y")]
+          for d in "uvw"]
+    return dict(model=mo, a=ex(p.a), b=ex(p.b), r=ex(p.r if mo == "cpanel" else 0.0), sina=rat(0), cosa=rat(1),
+                m=int(p.m), n=int(p.n), fl=fl,
+                stack=[dict(dir=ANGLES[float(t)], t=ex(th), mat=[ex(v) for v in pr])
+                       for t, th, pr in zip(p.stack, plyts, props)],
+                off=ex(p.offset), y1=rat(0), y2=ex(p.b), mu=ex(p.mu if p.mu is not None else 1.0), Ncte=[rat(0)] * 3)
+
+
+def bay_groups(rng, n_cases):
+    """StiffPanelBay.uvw_skin / uvw_stiffener: the skin uses the first num*m*n amplitudes, each 2-D stiffener region
+    its own slice at the running offset (blade flanges first, then (base, flange) of each T stiffener)"""
+    from compmech.stiffpanelbay import StiffPanelBay
+    out = []
+    lp = (10., 2., 0.25, 1., 1., 0.5)
+    for case in range(n_cases):
+        b = StiffPanelBay()
+        b.a, b.b, b.m, b.n = 2., 1.5, 3, rng.choice([2, 3])
+        b.stack, b.plyt, b.laminaprop, b.mu = [0, 90], 0.125, lp, 3.
+        b.model = "plate_clt_donnell_bardell"
+        for k, v in dict(u1tx=1, u2tx=0, v1ty=1, w1rx=1, w2rx=1, w1ry=1, w2ry=0, w1tx=1).items():
+            setattr(b, k, float(v))
+        cuts = [0., 0.5, 0.75, 1.0, b.b]          # stiffeners sit on skin-panel boundaries
+        for y1, y2 in zip(cuts[:-1], cuts[1:]):
+            b.add_panel(y1=y1, y2=y2)
+        nblade = rng.choice([1, 2])
+        for k in range(nblade):
+            b.add_bladestiff2d(ys=0.5 + 0.25 * k, fstack=[0, 90], fplyt=0.125, flaminaprop=lp, bf=0.25 + 0.125 * k,
+                               mf=2, nf=2 + k)
+        nt = rng.choice([0, 1])
+        for k in range(nt):
+            b.add_tstiff2d(ys=1.0, bb=0.5, bf=0.25, bstack=[0, 90], bplyt=0.125, blaminaprop=lp,
+                           fstack=[90, 0], fplyt=0.125, flaminaprop=lp, mb=2, nb=2, mf=2, nf=3)
+        b.calc_k0(silent=True)
+        size = b.get_size()
+        cg = [Fraction(rng.randint(-16, 16), 32) for _ in range(size)]
+        c = np.array([float(v) for v in cg])
+        skin = 3 * b.m * b.n
+        b.out_num_cores = rng.choice([1, 3, 4])
+
+        def record(pd, coff, res, xs, ys, label):
+            comps = [np.asarray(a, dtype=float).ravel() for a in res]
+            req = dict(q="uvw", size=0, row0=0, col0=0, c=[rat(v) for v in cg], coff=coff,
+                       pts=[[exact(x), exact(y)] for x, y in zip(xs, ys)])
+            out.append((pd, req, [[dyadic(cp[i]) for cp in comps] for i in range(len(xs))], True))
+
+        xs = np.array([0., 0.5, 2., 1.25, 0.75])
+        ys = np.array([0., 0.375, 1.5, 0.75, 1.125])
+        pdskin = pd_from_panel(b.panels[0])
+        pdskin["y2"] = pdskin["b"]
+        record(pdskin, 0, b.uvw_skin(c, xs=xs, ys=ys), xs, ys, "skin")
+        off = skin
+        for si, s in enumerate(b.stiffeners):
+            if s in b.bladestiff2ds:
+                regions = [("flange", s.flange)]
+            else:
+                regions = [("base", s.base), ("flange", s.flange)]
+            for region, pan in regions:
+                xs2 = np.array([0., 1., 2., 0.25])
+                ys2 = np.array([0., pan.b, pan.b / 2, pan.b / 4])
+                res = b.uvw_stiffener(c, si, region=region, xs=xs2, ys=ys2)
+                pdp = pd_from_panel(pan, model="plate")
+                record(pdp, off, res, xs2, ys2, "stiffener %d %s" % (si, region))
+                off += pan.get_size()
+    return out
